@@ -174,6 +174,7 @@ def run_history(case, ctx):
     model = {c['f']: [float(dbm2watt(c['p_dbm'])), 0.0, 0.0] for c in chans}
     meta = {c['f']: (c['baud'], c['slot'], c['label'], c['roll'], c['dp'], c['tx_osnr']) for c in chans}
     parts = []          # [(SpectralInformation, model)] split off by demux and not yet merged back
+    frozen = []         # [(SpectralInformation, model snapshot, steps, what)]: earlier points of the history, re-checked
     max_parts = 0
     compare(ctx, si, model, 0, 'launch')
     seen = set()
@@ -232,6 +233,10 @@ def run_history(case, ctx):
                 parts.append((select_channels(si, ~mask), {f: model[f] for f in freqs if f not in inside}))
             else:
                 parts.append((None, {}))
+            # the spectrum that was split stays a valid point of the propagation: later operations on its parts must not
+            # reach back into it (splitting returns new, independent spectra)
+            frozen.append((si, {f: list(v) for f, v in model.items()}, steps, f'spectrum split at step {step}'))
+            del frozen[:-3]
             model = {f: model[f] for f in inside}
             si = got
         elif kind == 'mux':
@@ -266,6 +271,13 @@ def run_history(case, ctx):
                 check_receiver(ctx, trx, si, model, evals[0][0], evals[0][1], f'step {step}', more=evals[1:] + evals[:1])
         seen.add(kind)
         compare(ctx, si, model, steps, f'step {step} {kind}')
+        for old_si, old_model, old_steps, what in frozen:
+            n_before = len(ctx.violations)
+            compare(ctx, old_si, old_model, old_steps, f'{what}, looked at again after step {step} {kind}')
+            if len(ctx.violations) > n_before:
+                sig, detail = ctx.violations[-1]
+                ctx.violations[-1] = ('earlier-spectrum-changed-by-later-operation:' + sig, detail)
+                return
         # per-channel data travels with its frequency
         for i, f in enumerate(si.frequency):
             b, s, lab, roll, dp, txo = meta[float(f)]
